@@ -2,7 +2,7 @@
     statement by statement, exactly what the descriptor interpreter (Gen/Message.v, Gen/History.v) does -
     for ALL states and frames, by induction over the signal list. *)
 From Coq Require Import ZArith List Bool Lia.
-From CanVerif Require Import Can.Data Descriptor.Types Gen.Message Gen.History Gen.HistoryPhys Gen.Wiring.
+From CanVerif Require Import Can.Data Descriptor.Types Descriptor.Physical Gen.Message Gen.History Gen.HistoryPhys Gen.Api Gen.Wiring.
 Import ListNotations.
 Open Scope Z_scope.
 
@@ -308,4 +308,158 @@ Proof.
   intros Hf Hu Hc H1 H2. unfold wiring_copy, copy_from. rewrite Hc.
   rewrite (wiring_frame_correct m w other Hf H2), (wiring_unmarshal_correct m w _ st Hu H1).
   destruct (unmarshal m (frame_of m other) st); reflexivity.
+Qed.
+
+(** ** Reset() *)
+Lemma const_value_demanded s : const_value (signal_prim_type s) (demanded_const s) = Some (reset_value s).
+Proof.
+  unfold demanded_const, reset_value, signal_prim_type.
+  destruct (Z.eqb_spec (s_length s) 1) as [E|E].
+  - rewrite E. cbn. reflexivity.
+  - destruct ((s_length s =? 32) && s_float s); [reflexivity|].
+    repeat match goal with |- context [if ?c then _ else _] => destruct c end; reflexivity.
+Qed.
+
+Lemma run_reset_demanded : forall ss pre suf k,
+  length pre = k -> length suf = length ss ->
+  run_reset (demanded_reset ss k) (pre ++ suf) = Some (pre ++ map reset_value ss).
+Proof.
+  induction ss as [|s tl IH]; intros pre suf k Hk Hlen.
+  - destruct suf; [reflexivity|discriminate].
+  - destruct suf as [|v suf']; [discriminate|]. cbn [demanded_reset run_reset rs_ftype rs_const rs_field map].
+    rewrite const_value_demanded.
+    assert (Hset : set_nth_state k (reset_value s) (pre ++ v :: suf') = pre ++ reset_value s :: suf')
+      by (rewrite <- Hk; apply set_nth_mid).
+    rewrite Hset.
+    rewrite (snoc_assoc pre (reset_value s) suf'), (snoc_assoc pre (reset_value s) (map reset_value tl)).
+    apply IH; [rewrite snoc_length; congruence|cbn in Hlen; congruence].
+Qed.
+
+Lemma rstmt_eqb_eq a b : rstmt_eqb a b = true -> a = b.
+Proof.
+  destruct a as [f1 t1 c1], b as [f2 t2 c2]. unfold rstmt_eqb. cbn [rs_field rs_ftype rs_const].
+  rewrite !andb_true_iff. intros [[H1 H2] H3]. apply Nat.eqb_eq in H1. apply prim_eqb_eq in H2. subst.
+  destruct c1, c2; cbn in H3; try discriminate.
+  - apply eqb_prop in H3. subst. reflexivity.
+  - apply Z.eqb_eq in H3. subst. reflexivity.
+Qed.
+
+Theorem wiring_reset_correct m w st :
+  reset_wiring_ok m w = true -> length st = length (msg_signals m) ->
+  wiring_reset w st = Some (reset_state m).
+Proof.
+  unfold reset_wiring_ok, wiring_reset. intros H Hlen.
+  destruct (resolve_all (resolve_reset w) (w_reset w)) as [l|]; [|discriminate].
+  apply (list_eqb_eq _ rstmt_eqb_eq) in H. subst l.
+  exact (run_reset_demanded (msg_signals m) [] st 0%nat eq_refl Hlen).
+Qed.
+
+(** ** setters *)
+Lemma resolve_all_forall2 {A B} (f : A -> option B) : forall l l',
+  resolve_all f l = Some l' -> Forall2 (fun x y => f x = Some y) l l'.
+Proof.
+  induction l as [|x l IH]; intros l' H; cbn in H.
+  - inversion H. constructor.
+  - destruct (f x) eqn:E; [|discriminate]. destruct (resolve_all f l); [|discriminate].
+    inversion H; subst. constructor; [exact E|apply IH; reflexivity].
+Qed.
+
+Lemma raw_setter_value sigs k s nm v :
+  nth_error sigs k = Some s -> setter_side_ok (nm, raw_setter k s) = true ->
+  setter_value sigs (raw_setter k s) v = Some (raw_set_value s v).
+Proof.
+  intros Hn Hs. unfold setter_side_ok, setter_value, raw_setter, raw_set_value in *.
+  cbn [snd rt_body rt_ftype rt_param] in *.
+  destruct (s_length s =? 1).
+  - cbn [ctype_eqb]. rewrite prim_eqb_refl. destruct (signal_prim_type s); cbn in Hs; try discriminate. reflexivity.
+  - rewrite Hn. unfold field_conv. cbn [ctype_eqb]. rewrite prim_eqb_refl, kind_conv_ok_super. cbn [andb].
+    destruct (signal_super_type s); destruct (signal_prim_type s); cbn in Hs; try discriminate; reflexivity.
+Qed.
+Lemma phys_setter_value sigs k s x :
+  nth_error sigs k = Some s -> setter_value sigs (phys_setter k s) x = Some (phys_set_value s x).
+Proof.
+  intros Hn. unfold setter_value, phys_setter, phys_set_value, field_conv. cbn [rt_body rt_param rt_ftype].
+  rewrite Hn, prim_eqb_refl. reflexivity.
+Qed.
+
+(** what one demanded setter is: the raw or the physical setter of one signal of the message, under its Go name *)
+Definition setter_spec (sigs : list signal) (p : name * rsetter) : Prop :=
+  exists i s, nth_error sigs i = Some s /\ rt_field (snd p) = i /\
+    ((fst p = (if has_physical s then setraw_prefix else set_prefix) ++ s_name s /\
+      forall v, setter_value sigs (snd p) v = Some (raw_set_value s v)) \/
+     (has_physical s = true /\ fst p = set_prefix ++ s_name s /\
+      forall x, setter_value sigs (snd p) x = Some (phys_set_value s x))).
+
+Lemma demanded_setters_spec sigs : forall ss pss k,
+  sigs = pss ++ ss -> length pss = k -> forallb setter_side_ok (demanded_setters ss k) = true ->
+  Forall (setter_spec sigs) (demanded_setters ss k).
+Proof.
+  induction ss as [|s tl IH]; intros pss k Hsig Hk Hside; cbn [demanded_setters] in *; [constructor|].
+  rewrite forallb_app, andb_true_iff in Hside. destruct Hside as [Hs1 Hs2].
+  assert (Hn : nth_error sigs k = Some s) by (subst sigs k; apply nth_error_mid).
+  apply Forall_app. split.
+  - destruct (has_physical s) eqn:Hp.
+    + cbn [forallb] in Hs1. rewrite !andb_true_iff in Hs1. destruct Hs1 as [_ [Hr _]].
+      constructor; [|constructor; [|constructor]].
+      * exists k, s. split; [exact Hn|]. split; [reflexivity|]. right. rewrite Hp. split; [reflexivity|]. split; [reflexivity|].
+        intros x. apply phys_setter_value. exact Hn.
+      * exists k, s. split; [exact Hn|]. split; [reflexivity|]. left. rewrite Hp. split; [reflexivity|].
+        intros v. eapply raw_setter_value; eauto.
+    + cbn [forallb] in Hs1. rewrite andb_true_r in Hs1.
+      constructor; [|constructor].
+      exists k, s. split; [exact Hn|]. split; [reflexivity|]. left. rewrite Hp. split; [reflexivity|].
+      intros v. eapply raw_setter_value; eauto.
+  - apply (IH (pss ++ [s])); auto.
+    + rewrite Hsig. apply snoc_assoc.
+    + rewrite snoc_length. congruence.
+Qed.
+
+Lemma name_eqb_eq : forall a b, name_eqb a b = true -> a = b.
+Proof.
+  induction a as [|x a IH]; intros [|y b]; cbn; try discriminate; try reflexivity.
+  rewrite andb_true_iff. intros [H1 H2]. apply Z.eqb_eq in H1. apply IH in H2. subst. reflexivity.
+Qed.
+Lemma rsetter_eqb_eq a b : rsetter_eqb a b = true -> a = b.
+Proof.
+  destruct a as [n1 [f1 t1 p1 b1]], b as [n2 [f2 t2 p2 b2]]. unfold rsetter_eqb. cbn [fst snd rt_field rt_ftype rt_param rt_body].
+  rewrite !andb_true_iff. intros [[[[H1 H2] H3] H4] H5].
+  apply name_eqb_eq in H1. apply Nat.eqb_eq in H2. apply prim_eqb_eq in H3. apply ctype_eqb_eq in H4. subst.
+  destruct b1, b2; cbn in H5; try discriminate; try reflexivity.
+  - rewrite !andb_true_iff in H5. destruct H5 as [[[A B] C] D].
+    apply super_eqb_eq in A. apply Nat.eqb_eq in B. apply ctype_eqb_eq in C. apply ctype_eqb_eq in D. subst. reflexivity.
+  - rewrite !andb_true_iff in H5. destruct H5 as [A B]. apply Nat.eqb_eq in A. apply ctype_eqb_eq in B. subst. reflexivity.
+Qed.
+
+(** every setter method of the emitted type is the raw or the physical setter of one signal of the message, under the
+    name the API gives it, and stores exactly the interpreter's value for EVERY argument and state *)
+Theorem wiring_setters_correct m w :
+  setters_wiring_ok m w = true ->
+  Forall (fun ns => exists i s, nth_error (msg_signals m) i = Some s /\
+            ((st_method ns = (if has_physical s then setraw_prefix else set_prefix) ++ s_name s /\
+              forall st v, wiring_setter m w ns st v = Some (raw_set m st i v)) \/
+             (has_physical s = true /\ st_method ns = set_prefix ++ s_name s /\
+              forall st x, wiring_setter m w ns st x = Some (phys_set m st i x))))
+         (w_setters w).
+Proof.
+  unfold setters_wiring_ok. intros H.
+  destruct (resolve_all (resolve_setter w) (w_setters w)) as [l|] eqn:El; [|discriminate].
+  apply andb_true_iff in H. destruct H as [He Hside]. apply (list_eqb_eq _ rsetter_eqb_eq) in He. subst l.
+  pose proof (demanded_setters_spec (msg_signals m) (msg_signals m) [] 0%nat eq_refl eq_refl Hside) as Hspec.
+  apply resolve_all_forall2 in El. clear Hside.
+  revert Hspec. induction El as [|ns p l l' Hr _ IH]; intros Hspec; [constructor|].
+  inversion Hspec as [|? ? Hp Hrest]; subst. constructor; [|apply IH; exact Hrest].
+  destruct Hp as (i & s & Hn & Hf & Hcase). exists i, s. split; [exact Hn|].
+  assert (Hm : st_method ns = fst p).
+  { unfold resolve_setter in Hr.
+    destruct (field_index w (st_field ns)); [|discriminate]. destruct (resolve_type w (st_param ns)); [|discriminate].
+    destruct (field_type w n); [|discriminate].
+    destruct (st_body ns).
+    - inversion Hr. reflexivity.
+    - destruct (desc_index w desc); [|discriminate]. destruct (resolve_type w cin); [|discriminate].
+      destruct (resolve_type w cout); [|discriminate]. inversion Hr. reflexivity.
+    - destruct (desc_index w desc); [|discriminate]. destruct (resolve_type w cout); [|discriminate]. inversion Hr. reflexivity. }
+  destruct p as [nm r]. cbn [fst snd] in *.
+  destruct Hcase as [[Hname Hv]|[Hp [Hname Hv]]].
+  - left. split; [congruence|]. intros st v. unfold wiring_setter, raw_set. rewrite Hr, Hv, Hn, Hf. reflexivity.
+  - right. split; [exact Hp|]. split; [congruence|]. intros st x. unfold wiring_setter, phys_set. rewrite Hr, Hv, Hn, Hf. reflexivity.
 Qed.
